@@ -41,14 +41,22 @@ CLAIMS = {
         "run' for arbitrary programs (shown for the programs of the units: nothing is left runnable).",
    ref="0.3 / 7/C06"),
  "C07": dict(
-   text="Only the cooperative-lock clause of C07 is within reach of a per-call contract and is what this check decides: "
-        "Lock._do_acquire / _do_release over (holder, waiters) with the invariant 'nobody waits while the lock is free': a free "
+   text="(1) The cooperative lock, decided per call: Lock._do_acquire / _do_release over (holder, waiters) with the invariant "
+        "'nobody waits while the lock is free': a free "
         "lock is taken at once, a held lock is never stolen, a non-blocking attempt reports False and does not wait, a blocking "
         "attempt waits, a release hands the lock to exactly one waiter if any and re-queues exactly that waiter once, releasing a "
-        "free lock is refused.",
-   note="The thread hand-off clauses of C07 (call-later exactly once and in order, wake-ups from several threads, the "
-        "synchronized section, wake-up without polling) are statements about interleavings of OS threads; no contract over one "
-        "call can express them - NOT decided by this technique, stated in not_decided and DESIGN.md 0.3.",
+        "free lock is refused.  (2) The SEQUENTIAL PROTOCOL of each side of the thread hand-off, as order contracts over one "
+        "call / one generator (c07_handoff.py): CallLaterTask.callLater queues the call behind the waiting ones and THEN pings, "
+        "unconditionally; one round of CallLaterTask.run pongs FIRST, then runs every queued call once, in order, even after a "
+        "failing one, empties the queue and goes back to Select on its pinger; ScheduleTask.run queues its task once at the front "
+        "unless already queued and parks; SyncTask.run gives its first slice away with both locks held, then releases inlock, THEN "
+        "blocks on outlock and ends; Synchronizer enter/exit start the SyncTask, block on inlock and release outlock at the "
+        "outermost level only; SelectHub.idle (threaded hub) waits up to CYCLE_MAXIMUM and THEN clears the event, break_idle sets "
+        "it; the inline hub runs one select round.",
+   note="The interleaving statement itself (every schedule of foreign threads against the scheduler thread) is NOT decided by "
+        "this technique: the order contracts of (2) are necessary conditions on which every interleaving argument for these "
+        "functions rests (each of the four seeded hand-off changes breaks one of them); that they suffice is an argument, stated "
+        "in not_decided and DESIGN.md 0.3.",
    ref="0.3 / 7/C07"),
  "C11": dict(
    text="The learning switch's decision LearningSwitch._handle_PacketIn is proved as one step over the abstract table "
